@@ -176,4 +176,70 @@ theorem isomap_end_to_end_brute (δ : Nat → Nat → K) {N : Nat} (hN : 0 < N) 
       (fun k hk' => bruteSearch_exact hN hself k hk') disc ch solver sqrtO
   exact ⟨o, ho, h3, h1, h2, h4, fun i j => (h5 i j).2, h6, h7⟩
 
+/-! ### Non-vacuity: a concrete instance meets every hypothesis, including the solver and `sqrt` contracts of conjunct 5
+
+Four samples over `ℚ`: two coinciding pairs `{0,1}`, `{2,3}` at distance 2 from each other (the points `1,1,−1,−1` of
+C05's example), requested `k = 1`, `d = 1`, brute-force search.  At `k = 1` each pair only sees itself (not connected),
+so `k` is doubled once: `k' = 2`, tried `[1, 2]`.  The geodesics equal the direct distances, the matrix handed to the
+solver is C05's `mdsPre exδ`, whose top eigenpair `(exV, 4)` with `sqrt 4 = 2` meets the contracts (`C05.ex_isTopEig`). -/
+
+def exδN (a b : Nat) : ℚ := if decide (a < 2) = decide (b < 2) then 0 else 2
+def exSolver : Mat 4 4 ℚ → Mat 4 1 ℚ × Vec 1 ℚ := fun _ => (C05.exV, C05.exLam)
+def exSqrt : ℚ → ℚ := fun _ => 2
+
+theorem exB1 : bruteSearch exδN 4 1 = [[1], [0], [3], [2]] := by
+  simp [bruteSearch, bruteKnn, bruteSelect, bruteLoop, popIfLonger, bruteRecords, exδN, List.range, List.range.loop,
+    nthElementExec, recLt, List.mergeSort, List.MergeSort.Internal.splitInTwo]
+
+theorem exB2 : bruteSearch exδN 4 2 = [[1, 2], [0, 2], [3, 0], [2, 0]] := by
+  simp [bruteSearch, bruteKnn, bruteSelect, bruteLoop, popIfLonger, bruteRecords, exδN, List.range, List.range.loop,
+    nthElementExec, recLt, List.mergeSort, List.MergeSort.Internal.splitInTwo]
+
+theorem ex_find : findNeighbors (bruteSearch exδN 4) 4 true (findFuel 4) 1 [] =
+    .ok ⟨[[1, 2], [0, 2], [3, 0], [2, 0]], 2, [1, 2]⟩ := by
+  have c1 : isConnected 4 [[1], [0], [3], [2]] = .ok false := by decide
+  have c2 : isConnected 4 [[1, 2], [0, 2], [3, 0], [2, 0]] = .ok true := by decide
+  simp [findNeighbors, findFuel, exB1, exB2, c1, c2]
+
+def exF : List (Vector (Option ℚ) 4) :=
+  [#v[some 0, some 0, some 2, some 2], #v[some 0, some 0, some 2, some 2],
+   #v[some 2, some 2, some 0, some 0], #v[some 2, some 2, some 0, some 0]]
+
+theorem ex_allPairs : Dijkstra.allPairs (problemOf [[1, 2], [0, 2], [3, 0], [2, 0]] 4 exδN) .lazy (fun _ _ => 0) =
+    .ok exF := by decide +kernel
+
+theorem ex_B : ∀ i j, isomapPre (geoMat exF) i j = mdsPre C05.exδ i j := by decide +kernel
+
+theorem exδN_nonneg : ∀ a b, 0 ≤ exδN a b := by
+  intro a b; unfold exδN; split <;> norm_num
+
+theorem exδN_self : ∀ i j, i < 4 → j < 4 → exδN i i ≤ exδN i j := by
+  intro i j _ _
+  have : exδN i i = 0 := by simp [exδN]
+  rw [this]; exact exδN_nonneg i j
+
+example : ∃ o, isomapEmbedModel exδN 4 1 true 1 (bruteSearch exδN 4) .lazy (fun _ _ => 0) exSolver exSqrt = .ok o ∧
+    o.found.k = 2 ∧ o.found.tried = [1, 2] ∧
+    IsTopEig (Mat.toM o.B) (Mat.toM o.V) o.lam ∧
+    (∀ j, exSqrt (clamp0 (o.lam j)) * exSqrt (clamp0 (o.lam j)) = clamp0 (o.lam j)) ∧
+    (Mat.toM o.Y)ᵀ * Mat.toM o.Y = diagonal (fun _ => (4 : ℚ)) := by
+  obtain ⟨o, ho, _, _, _, _, hV, hY, hopt⟩ :=
+    isomap_end_to_end exδN (N := 4) (by decide) (k := 1) (by decide) (by decide) 1 exδN_nonneg (bruteSearch exδN 4)
+      (bruteSearch_length exδN 4) (fun k hk => bruteSearch_exact (by decide) exδN_self k hk) .lazy (fun _ _ => 0)
+      exSolver exSqrt
+  have ho' := ho
+  unfold isomapEmbedModel at ho'
+  simp only [ex_find, ex_allPairs] at ho'
+  injection ho' with ho'
+  subst ho'
+  have hB : Mat.toM (isomapPre (geoMat exF)) = Mat.toM (mdsPre C05.exδ) :=
+    congrArg Mat.toM (funext fun i => funext fun j => ex_B i j)
+  have htop : IsTopEig (Mat.toM (isomapPre (geoMat exF))) (Mat.toM C05.exV) C05.exLam := by
+    rw [hB]; exact C05.ex_isTopEig
+  have hs : ∀ j : Fin 1, exSqrt (clamp0 (C05.exLam j)) * exSqrt (clamp0 (C05.exLam j)) = clamp0 (C05.exLam j) := by
+    decide +kernel
+  refine ⟨_, ho, rfl, rfl, htop, hs, ?_⟩
+  have := (hopt htop hs).1
+  rw [this]
+  congr 1
 end TapkeeVerif.IsomapCompose
